@@ -347,7 +347,10 @@ fn wide_suite<S: ShortGroupSignatureScheme>(em: &mut Emitter, rng: &mut Rng, sui
             let c = pok_challenge::<S>(&pok, nonce);
             let proof = match pok.generate_proof(c) {
                 Ok(p) => p,
-                Err(_) => continue,
+                Err(_) => {
+                    em.violation("pok-generate-failed", format!("{}: generate_proof failed for an honest proof over {} messages ({} revealed)", suite, n, rvl.len()), replay.clone());
+                    continue;
+                }
             };
             em.oracle_case(&format!("{} wide pok n={} run={}", suite, n, run));
             if !S::verify_signature_pok(&rvl, &pk, &proof, nonce, c) {
